@@ -6,7 +6,7 @@ from common import hexs
 ID = "C18"
 DRIVER = "s3"
 MODEL_FILES = ["Model/Base.v", "Model/Parse.v", "Model/Node.v", "Model/Disk.v", "Model/S3.v"]
-THEOREMS = ["C18_part_history_restore", "C18_part_history_inv", "C18_part_snapshot_inv", "C18_part_roundtrip_reclaim", "C18_part_object_roundtrip", "C18_s3_roundtrip", "C18_s3_snapshot_other_objects", "C18_part_put_fault_reported", "C18_part_put_fault_once_retried", "C18_part_get_fault_once_retried", "C18_hyps_satisfiable", "C18_s3_put_fault_silent_refuted", "C18_s3_get_fault_panics_refuted", "C18_metadata_not_restored_refuted", "C18_metadata_not_restored_two_dbs", "C18_part_prefix_collision_refuted"]
+THEOREMS = ["C18_part_history_restore", "C18_part_history_inv", "C18_part_snapshot_inv", "C18_part_roundtrip_reclaim", "C18_part_object_roundtrip", "C18_s3_roundtrip", "C18_s3_snapshot_other_objects", "C18_part_put_fault_reported", "C18_part_put_fault_once_retried", "C18_part_get_fault_once_retried", "C18_hyps_satisfiable", "C18_s3_put_fault_silent_refuted", "C18_s3_get_fault_panics_refuted", "C18_metadata_not_restored_refuted", "C18_metadata_not_restored_two_dbs", "C18_part_prefix_no_collision_example", "C18_part_read_db_other_dbs"]
 STRENGTH = {t: "proof-unbounded" for t in THEOREMS}
 RULE = ("the operation / snapshot / restart histories of the disk strategy (exhaustive sequences of length <= 3 quick / 4 thorough over "
         "{set, set-safe, remove, increment} x 2 keys, {snapshot false, snapshot true}, restart; seeded random sequences up to 30 steps "
@@ -69,6 +69,17 @@ def gen_cases(tier, seed):
             for seq in itertools.product(ALPHA, repeat=L):
                 cases.append(("x%d" % k, ["P"] + list(cfg), build(seq))); k += 1
     dist["exhaustive"] = k
+    # a database whose name extends another one's (d1 / d10): the partition listing of d1 must not pick up d10's objects
+    dist["name_prefix"] = 0
+    for cfg in CONFIGS:
+        for extra in (["set a 1"], ["set a 1", "set b 2", "set ccc 3", "set k4 4", "set zz 5", "set q7 6"]):
+            ops = [["conn"], ["conn"], C(0, "auth nun pwd"), C(0, "create-db d1 tok1 newer"), C(0, "create-db d10 tok10 newer"),
+                   ["parts"] + [hexs(k) for k in ALLKEYS + ["zz", "q7"]], C(1, "use-db d1 tok1"), C(1, "set a 1"), C(1, "use-db d10 tok10")]
+            ops += [C(1, e) for e in extra]
+            ops += [C(0, "snapshot false d1|d10"), ["flush"], ["restart"], ["conn"], ["conn"], C(0, "auth nun pwd"), C(1, "use-db d1 tok1"), C(1, "keys"),
+                    C(1, "use-db d10 tok10"), C(1, "keys")]
+            cases.append(("p%d" % k, ["P"] + list(cfg), ops)); k += 1
+            dist["name_prefix"] += 1
     for i in range(nrand):
         cfg = rng.choice(CONFIGS)
         dist["configs"]["/".join(cfg)] = dist["configs"].get("/".join(cfg), 0) + 1
